@@ -265,4 +265,17 @@ func init() {
 		}, genTrusted...),
 		note: "partial: on the real RootApp.Run no error of a stage is swallowed (result == nil implies that Initialize, GetPackages, ParsePackages and every per-interface / per-file stage that ran returned nil: loop invariants over ghost last-error records), a run that ends normally has an empty missing-interface map and a non-empty one ends in os.Exit(1); InterfaceCollection.Append rejects exactly mocks whose output file, package name, source package or template differ; ParsePackages fails on load/type errors and never dereferences a failed scope lookup (function-local types); ShouldExcludeSubpkg returns the regex error instead of panicking; getTemplate errors on unknown templates, format on unknown formatters, validateSchema on rejected template-data, ParseTemplates on cyclic values (C11); findPkgPath terminates and uses the go.mod parser. Unknown configuration keys and exit-status plumbing in main are library behaviour.",
 	})
+	register(&propInfo{
+		id: "C20", patterns: []string{"./tools/cmd"},
+		trusted: []string{
+			"Masterminds/semver: GreaterThan is a strict weak order (axioms semver_irreflexive, semver_order); NewVersion is a function of its argument",
+			"go-git read accessors (Repository.TagObject, Reference.Hash/Name, ReferenceName.Short, Status.IsClean) are functions of the repository state; Repository.Tags().ForEach calls the callback once per tag reference, in order, stops at the first error and returns it (the call is cut like a range loop over an abstract sequence)",
+			"the table of go-git mutators (Repository.CreateTag/DeleteTag/CreateBranch/Push/..., Worktree.Add/Commit/Checkout/Reset/..., storer SetReference/RemoveReference) is complete for what tools/cmd can reach; CreateTag/DeleteTag change only the named tag reference (and its tag object)",
+			"viper: a flag bound on an instance with BindPFlag is visible to that instance's Unmarshal, with the flag's default when it was not given; package-level viper functions act on a global instance different from any viper.New() instance",
+			"go-errors: Is(e, e) for non-nil e; errors.New never returns nil; plumbing.ErrObjectNotFound is non-nil",
+			"strings.Split(s, \".\") has at least one element",
+			"the cobra command closure in NewTagCmd (exit statuses 8 / 1) is not under contract",
+		},
+		note: "partial: on the real tools/cmd: largestTagSemver returns an upper bound (in semver order) of every full semantic-version tag with the requested major, annotated or lightweight, for every tag sequence (loop invariant over the abstract reference sequence of ForEach); Tag calls createTag only if the requested version is strictly greater than that bound, the work tree status IsClean() and every earlier step succeeded, returns ErrNoNewVersion without tagging otherwise, and reaches no repository mutation itself (effect frame); createTag performs no mutation when DryRun is set and otherwise deletes and creates exactly the full-version tag and the major-version tag on HEAD, twice CreateTag in total; NewTagCmd defines --dry-run with default true and binds it on the viper instance the Tagger reads (finding D13, fixed). Exit statuses of the cobra closure and go-git's own behaviour are outside the check.",
+	})
 }
